@@ -7080,6 +7080,7 @@ size_t ZSTD_compressSequences(ZSTD_CCtx* cctx,
     }
 
     DEBUGLOG(4, "Final compressed size: %zu", cSize);
+    ZSTD_CCtx_reset(cctx, ZSTD_reset_session_only);   /* the frame is complete : back to init stage, as after ZSTD_compress2() */
     return cSize;
 }
 
